@@ -179,3 +179,70 @@ Proof.
       * apply smem_in. apply local_hashes_in. exists b. auto.
     + apply resolve_match_in. exists a. auto.
 Qed.
+
+(* ---- link lifecycle: a link that comes up after ANY history is matched afresh ---- *)
+
+Lemma matched_hashes_in la sa lb sb h :
+  In h (matched_hashes la sa lb sb) <-> In h (local_hashes la sa) /\ In h (local_hashes lb sb).
+Proof.
+  unfold matched_hashes. rewrite sdedup_in, filter_In, smem_in. tauto.
+Qed.
+
+Lemma filter_all_true {A} (f : A -> bool) l : (forall x, In x l -> f x = true) -> filter f l = l.
+Proof.
+  induction l as [|x l IH]; intros H; cbn; [reflexivity|].
+  rewrite (H x (or_introl eq_refl)). f_equal. apply IH. intros y Hy. apply H. right. exact Hy.
+Qed.
+
+Lemma new_hashes_fresh sa sb la lb :
+  new_hashes sa sb (mk_lnk la lb []) = matched_hashes la sa lb sb.
+Proof. unfold new_hashes. cbn. apply filter_all_true. intros; reflexivity. Qed.
+
+(* whatever happened before (matches on this uuid or on parallel links, links
+   lost and re-established, any number of settles): if the uuid is not tracked,
+   bringing the link up and settling delivers exactly to the matched directives *)
+Lemma link_up_after_any_history sa sb hist id la lb :
+  let ls := lrun sa sb [] hist in
+  is_up id ls = false ->
+  let ls1 := fst (lstep sa sb ls (LinkUp id la lb)) in
+  In (id, (receivers la sa lb sb, flat_map (resolve_match lb sb) (matched_hashes la sa lb sb)))
+     (snd (lstep sa sb ls1 Settle)).
+Proof.
+  cbn zeta. intros U. cbn [lstep]. rewrite U. cbn [fst snd map].
+  left. unfold deliveries_a, deliveries_b. cbn [snd fst]. rewrite new_hashes_fresh. reflexivity.
+Qed.
+
+(* the b side of that observation is the set of b's matched directives *)
+Lemma deliveries_b_iff la sa lb sb j :
+  ends_of_one_link la lb ->
+  (In j (flat_map (resolve_match lb sb) (matched_hashes la sa lb sb)) <->
+   exists b a, nth_error sb j = Some b /\ In a sa /\ matched lb b la a = true).
+Proof.
+  intros E. rewrite <- (receivers_iff lb sb la sa j). unfold receivers.
+  rewrite !in_flat_map. split; intros [h [H1 H2]]; exists h; split; auto;
+    apply matched_hashes_in; apply matched_hashes_in in H1; tauto.
+Qed.
+
+(* LinkDown forgets the link, so the uuid can come up again *)
+Lemma link_down_forgets sa sb ls id : is_up id (fst (lstep sa sb ls (LinkDown id))) = false.
+Proof.
+  cbn. unfold is_up, ldrop. induction ls as [|p ls IH]; cbn; [reflexivity|].
+  destruct (Nat.eqb (fst p) id) eqn:E; cbn; [exact IH|]. rewrite E. exact IH.
+Qed.
+
+(* one stream per hash and link incarnation: a second settle delivers nothing new *)
+Lemma settle_twice_nothing_new sa sb p :
+  new_hashes sa sb (snd (settle_link sa sb p)) = [].
+Proof.
+  unfold settle_link, new_hashes. cbn [snd k_a k_b k_matched].
+  set (M := matched_hashes (k_a (snd p)) sa (k_b (snd p)) sb).
+  set (K := k_matched (snd p)).
+  assert (H : forall l, (forall h, In h l -> In h M) ->
+              filter (fun h => negb (smem h (K ++ filter (fun h0 => negb (smem h0 K)) M))) l = []).
+  { induction l as [|h l IH]; intros Hl; cbn; [reflexivity|].
+    assert (S : smem h (K ++ filter (fun h0 => negb (smem h0 K)) M) = true).
+    { apply smem_in. apply in_or_app. destruct (smem h K) eqn:E; [left; apply smem_in, E|right].
+      apply filter_In. split; [apply Hl; left; reflexivity|rewrite E; reflexivity]. }
+    rewrite S. cbn. apply IH. intros x Hx. apply Hl. right. exact Hx. }
+  apply H. auto.
+Qed.
